@@ -153,6 +153,7 @@ func (s *subscriber) receive(c *actor.Context) {
 	}
 	s.mu.Lock()
 	s.log = append(s.log, r)
+	s.cond.Broadcast()
 	s.mu.Unlock()
 }
 
@@ -541,6 +542,36 @@ func run(c Case, c09 bool) (feat map[string]int, err error) {
 						return nil, fmt.Errorf("%w: a temp actor without restart budget is still registered after it crashed", errInconclusive)
 					}
 					time.Sleep(200 * time.Microsecond)
+				}
+				// Unregistered - but the clean-up goes on, on the actor's goroutine: the Stopped handler, then,
+				// as its last act, ActorStoppedEvent.  Events of different goroutines are not ordered, so nothing
+				// is broadcast from here before that event is out.  If it does not show, a stop request for the
+				// actor tells when the clean-up has returned (its context is done no earlier), and a sentinel
+				// broadcast after that is behind whatever the clean-up published.
+				stoppedSeen := func() bool {
+					for _, r := range h.anchor.log {
+						if r.kind == "life" && r.text == "stopped:"+id {
+							return true
+						}
+					}
+					return false
+				}
+				if h.anchor.waitForD(20*time.Second, stoppedSeen) != nil {
+					select {
+					case <-e.Poison(tp).Done():
+					case <-time.After(wait):
+						return nil, fmt.Errorf("%w: poison of an actor that died of max-restarts not done", errInconclusive)
+					}
+					if err := h.barrier(); err != nil {
+						return nil, err
+					}
+					h.anchor.mu.Lock()
+					ok := stoppedSeen()
+					h.anchor.mu.Unlock()
+					if !ok {
+						return nil, fmt.Errorf("op %d: %s died of max-restarts; its clean-up has returned (a stop request for it is done) and a sentinel broadcast after that has reached the subscriber, but no ActorStoppedEvent for it has", oi, id)
+					}
+					return nil, fmt.Errorf("%w: ActorStoppedEvent of %s took more than 20 s", errInconclusive, id)
 				}
 				h.note("life-death-by-max-restarts")
 			} else {
